@@ -46,6 +46,13 @@ var properties = map[string]Prop{
 		Rule: "same scenario matrix as C08; oracle = at quiescence no survivor paused / half-stopped / holding mail, queued burst delivered in order to the right incarnation, every survivor processes a probe sent after quiescence, zombies inert + releasable, System.Stop still terminates everything, no spin, no stuck thread; distinct_nontrivial = distinct per-actor trace summaries per scenario",
 		Assumptions: append([]string{coarseAssumption}, schedAssumptions...),
 	},
+	"C06": {
+		Parts:       []Part{{Harness: "c06"}},
+		Level:       "model_checking",
+		QuickBudget: 200, ThoroughBudget: 1800,
+		Rule: "delay-bounded DFS over schedules (switches between messages and at every mailbox Enqueue) of the real actor.System for tree shape{single,chain3,fan,mixed} x kill target(every node) x {immediate,poison} x second kill{same,ancestor,descendant} x watcher{early,twice,late,unwatched} x spawn racing the kill{in OnKill handler, same-name respawn in the parent's OnKilled handler, outsider ActorOf} x owned subscription+Loop job; oracle = children-first / exactly-once termination notices, path release, name reuse, subscription and job release; distinct_nontrivial = distinct (termination order, per-actor traces) per scenario",
+		Assumptions: append([]string{coarseAssumption}, schedAssumptions...),
+	},
 	"C05": {
 		Parts:       []Part{{Harness: "c05"}},
 		Level:       "model_checking",
